@@ -549,6 +549,36 @@ impl W {
         Ok((9, show))
     }
 
+    /// zero-sized arguments (unit, a zero-sized registered type) in front of and between other arguments,
+    /// Rust -> script, script -> registered function and script -> script
+    fn zst_positions(&self, c: &mut Choices) -> Result<(u64, String), (String, String)> {
+        let src = "fn z1(a: i32, z: Tz, b: i64) -> i64 { b }\nfn z2(z: Tz, a: i32) -> i32 { a }\nfn z3(u: (), a: i32, z: Tz, w: (), b: u8) -> u8 { b }\nfn z4(a: i32) -> i32 { hz2(mkz(), a) }\nfn z5(a: i32, b: i32) -> i32 { hz3(a, mkz(), b) }\nfn z6(a: i32) -> i32 { z2(mkz(), a) }\nfn z7(u: (), a: i32) -> i32 { a }\n";
+        let mut pkg = host::compile(&self.rt, src).map_err(|e| ("zst-positions:rejected".to_string(), e))?;
+        let (a, b, d, e) = (i32::make(c), i64::make(c), u8::make(c), i32::make(c));
+        let show = format!("a = {a}, b = {b}, d = {d}, e = {e}");
+        macro_rules! chk {
+            ($name:literal, $got:expr, $want:expr) => {{
+                let got = $got;
+                if got != $want {
+                    return Err((format!("zst-positions:{}", $name), format!("{} returned {got}, expected {} ({show})\n{src}", $name, $want)));
+                }
+            }};
+        }
+        macro_rules! gf {
+            ($name:literal, $t:ty) => {
+                pkg.get_function::<$t>($name).map_err(|e| ("zst-positions:get_function".to_string(), format!("{}: {e}", $name)))?
+            };
+        }
+        chk!("z1", gf!("z1", fn(i32, Val<host::Tz>, i64) -> i64).call(a, Val(host::Tz::new()), b), b);
+        chk!("z2", gf!("z2", fn(Val<host::Tz>, i32) -> i32).call(Val(host::Tz::new()), a), a);
+        chk!("z3", gf!("z3", fn((), i32, Val<host::Tz>, (), u8) -> u8).call((), a, Val(host::Tz::new()), (), d), d);
+        chk!("z4", gf!("z4", fn(i32) -> i32).call(a), a);
+        chk!("z5", gf!("z5", fn(i32, i32) -> i32).call(a, e), a.wrapping_mul(31).wrapping_add(e));
+        chk!("z6", gf!("z6", fn(i32) -> i32).call(e), e);
+        chk!("z7", gf!("z7", fn((), i32) -> i32).call((), a), a);
+        Ok((7, show))
+    }
+
     fn context(&self, c: &mut Choices) -> Result<(u64, String), (String, String)> {
         let rt1 = Runtime::new().with_context_type::<Ctx1>().map_err(|e| ("context:registration".to_string(), format!("{e}")))?;
         let src1 = "fn ga() -> u8 { a }\nfn gb() -> u64 { b }\nfn gc() -> bool { c }\nfn gd() -> String { d }\nfn ge() -> u16 { e }\nfn gf() -> f32 { f }\n";
@@ -593,8 +623,8 @@ impl WorkerState for W {
         let empty: Vec<u8> = Vec::new();
         let ctl = case.first().unwrap_or(&empty);
         let mut c = Choices::new(ctl);
-        let k = c.below(self.checks.len() + 2);
-        if k < self.checks.len() { format!("type {}", self.checks[k].name) } else { "positions / context".into() }
+        let k = c.below(self.checks.len() + 3);
+        if k < self.checks.len() { format!("type {}", self.checks[k].name) } else { "positions / zero-sized positions / context".into() }
     }
 
     fn run(&mut self, case: &Case, render: bool) -> Outcome {
@@ -610,7 +640,7 @@ impl WorkerState for W {
                 }
             }
         }
-        let k = c.below(self.checks.len() + 2);
+        let k = c.below(self.checks.len() + 3);
         eprintln!("@@ctx route={k}");
         let res = if k < self.checks.len() {
             o.classes.push(format!("type:{}", self.checks[k].name));
@@ -618,6 +648,9 @@ impl WorkerState for W {
         } else if k == self.checks.len() {
             o.classes.push("route:argument-positions".into());
             self.positions(&mut c).map(|(n, s)| (n, true, s))
+        } else if k == self.checks.len() + 1 {
+            o.classes.push("route:zero-sized-argument-positions".into());
+            self.zst_positions(&mut c).map(|(n, s)| (n, true, s))
         } else {
             o.classes.push("route:context-fields".into());
             self.context(&mut c).map(|(n, s)| (n, true, s))
@@ -646,7 +679,7 @@ impl Prop for C05P {
         "C05"
     }
     fn rule(&self) -> String {
-        "a macro-built catalogue of ~80 boundary types (20 leaves incl. registered clone/copy types, Option/List/Result/Verdict nestings to depth 3, payloads of 0..32 bytes) x generated edge and random values x routes: Rust->script->Rust identity, Rust->script->registered function->script->Rust, through a local copy, script constructs the value from generated literal text, script compares an incoming value with literal text, registered constants, as elements of a list built by the script and read in Rust, of a list built in Rust and read by the script, and of a Rust-built list extended by the script, a 7-argument position sweep over mixed classes (register vs stack), context structs with permuted field orders; oracle: structural equality computed by the harness (NaN tolerant, lists by content), Tr balance. Non-trivial: value is not the type's default and the type is nested or not a plain 8-byte scalar; distinct by (type, value)".into()
+        "a macro-built catalogue of ~80 boundary types (20 leaves incl. registered clone/copy types, Option/List/Result/Verdict nestings to depth 3, payloads of 0..32 bytes) x generated edge and random values x routes: Rust->script->Rust identity, Rust->script->registered function->script->Rust, through a local copy, script constructs the value from generated literal text, script compares an incoming value with literal text, registered constants, as elements of a list built by the script and read in Rust, of a list built in Rust and read by the script, and of a Rust-built list extended by the script, a 7-argument position sweep over mixed classes (register vs stack), zero-sized arguments (unit and a zero-sized registered type) before and between other arguments in Rust->script, script->registered function and script->script calls, context structs with permuted field orders; oracle: structural equality computed by the harness (NaN tolerant, lists by content), Tr balance. Non-trivial: value is not the type's default and the type is nested or not a plain 8-byte scalar; distinct by (type, value)".into()
     }
     fn assumptions(&self) -> Vec<String> {
         vec![
